@@ -29,7 +29,7 @@ import (
 )
 
 func init() {
-	register(&Prop{Name: "c20", Gen: c20Gen, Exec: c20Exec, Judge: c20Judge})
+	register(&Prop{Name: "c20", Stateless: true, Gen: c20Gen, Exec: c20Exec, Judge: c20Judge})
 }
 
 // ---- canonicalisation ---------------------------------------------------------------------------
